@@ -13,10 +13,67 @@ use linfa::traits::{Fit, Transformer};
 use linfa::Float;
 use linfa_preprocessing::linear_scaling::{LinearScaler, LinearScalerParams, ScalingMethod};
 use linfa_preprocessing::norm_scaling::NormScaler;
-use linfa_preprocessing::whitening::{FittedWhitener, Whitener};
+use linfa_preprocessing::whitening::{FittedWhitener, Whitener, WhiteningMethod};
 use linfa_preprocessing::PreprocessingError;
-use ndarray::{Array1, Array2, Axis};
+use ndarray::{s, Array1, Array2, Axis, ShapeBuilder};
+use std::cell::RefCell;
 use std::panic::{catch_unwind, AssertUnwindSafe};
+
+/// outcome keys collected inside a case closure (which cannot reach `Em`), counted after the case
+type Tally = RefCell<Vec<String>>;
+fn tally(t: &Tally, key: &str) {
+    t.borrow_mut().push(key.to_string());
+}
+fn flush(em: &mut Em, t: &Tally) {
+    for k in t.borrow_mut().drain(..) {
+        em.count(&k);
+    }
+}
+
+/// memory layout of a record matrix handed to linfa: C order, Fortran order, or a strided window
+/// (every other row, inner columns) of a larger C-order array whose other cells are NaN
+#[derive(Clone, Copy, PartialEq, Debug)]
+enum Lay {
+    C,
+    F,
+    S,
+}
+impl Lay {
+    fn tag(&self) -> &'static str {
+        match self {
+            Lay::C => "C",
+            Lay::F => "F",
+            Lay::S => "S",
+        }
+    }
+}
+fn gen_lay(rng: &mut Rng) -> Lay {
+    match rng.below(4) {
+        0 | 1 => Lay::C,
+        2 => Lay::F,
+        _ => Lay::S,
+    }
+}
+/// the NaN-padded backing store of a strided window; `window(..)` is the n x p matrix
+fn backing<F: Float>(m: &Mat, p: usize) -> Array2<F> {
+    let n = m.len();
+    let mut b = Array2::from_elem((2 * n + 1, p + 2), F::nan());
+    for i in 0..n {
+        for j in 0..p {
+            b[(2 * i + 1, j + 1)] = F::cast(m[i][j]);
+        }
+    }
+    b
+}
+/// owned array in the requested layout (S: owned, non-contiguous strides via `slice_move`)
+fn to_arr_lay<F: Float>(m: &Mat, p: usize, lay: Lay) -> Array2<F> {
+    let n = m.len();
+    match lay {
+        Lay::C => to_arr(m, p),
+        Lay::F => Array2::from_shape_fn((n, p).f(), |(i, j)| F::cast(m[i][j])),
+        Lay::S => backing::<F>(m, p).slice_move(s![1..(2 * n + 1);2, 1..(p + 1)]),
+    }
+}
 
 type Mat = Vec<Vec<f64>>;
 
@@ -67,7 +124,7 @@ enum Stream {
 
 /// one column of `n` values. `eps` is the machine epsilon of the carrier the matrix is meant for.
 fn gen_column(rng: &mut Rng, n: usize, stream: Stream, eps: f64, em: &mut Em) -> Vec<f64> {
-    let kind = rng.below(if stream == Stream::Lattice { 7 } else { 11 });
+    let kind = rng.below(if stream == Stream::Lattice { 7 } else { 13 });
     match kind {
         0 => {
             em.count("col:constant");
@@ -99,6 +156,14 @@ fn gen_column(rng: &mut Rng, n: usize, stream: Stream, eps: f64, em: &mut Em) ->
             em.count("col:constant_generic");
             let c = *rng.pick(&[0.1, -1e6 - 0.3, 3.3e-6, 1e6 + 0.1]);
             vec![c; n]
+        }
+        11 | 12 => {
+            // "badly scaled" but well inside the guard: spreads between 16 eps and 2^30 eps, no offset
+            // (audit item 1: a loosened constant-column guard would swallow these)
+            em.count("col:small_scale");
+            let k = *rng.pick(&[4i32, 6, 8, 12, 16, 20, 24, 30]);
+            let sc = eps * 2f64.powi(k);
+            (0..n).map(|_| sc * (2.0 * rng.unit() - 1.0)).collect()
         }
         _ => {
             em.count("col:generic");
@@ -158,10 +223,19 @@ fn gen_shape(rng: &mut Rng, big: bool) -> (usize, usize) {
         0
     } else if big && rng.chance(1, 6) {
         rng.range(9, 40) as usize
+    } else if rng.chance(1, 10) {
+        // beyond ndarray's 8-way unrolling also in the quick tier
+        rng.range(9, 24) as usize
     } else {
         rng.range(1, 9) as usize
     };
-    let p = if rng.chance(1, 40) { 0 } else { rng.range(1, 5) as usize };
+    let p = if rng.chance(1, 40) {
+        0
+    } else if rng.chance(1, 10) {
+        rng.range(5, 8) as usize
+    } else {
+        rng.range(1, 5) as usize
+    };
     (n, p)
 }
 
@@ -190,17 +264,43 @@ impl Lin {
             Lin::MaxAbs => "maxabs",
         }
     }
-    fn params<F: Float>(&self) -> LinearScalerParams<F> {
+    fn method<F: Float>(&self) -> ScalingMethod<F> {
         match *self {
-            Lin::Std(true, true) => LinearScaler::standard(),
-            Lin::Std(false, true) => LinearScaler::standard_no_mean(),
-            Lin::Std(true, false) => LinearScaler::standard_no_std(),
-            Lin::Std(a, b) => LinearScalerParams::new(ScalingMethod::Standard(a, b)),
-            Lin::MinMax(lo, hi) if lo == 0.0 && hi == 1.0 => LinearScaler::min_max(),
-            Lin::MinMax(lo, hi) => LinearScaler::min_max_range(F::cast(lo), F::cast(hi)),
-            Lin::MaxAbs => LinearScaler::max_abs(),
+            Lin::Std(a, b) => ScalingMethod::Standard(a, b),
+            Lin::MinMax(lo, hi) => ScalingMethod::MinMax(F::cast(lo), F::cast(hi)),
+            Lin::MaxAbs => ScalingMethod::MaxAbs,
         }
     }
+    /// has a dedicated constructor function (`Standard(false,false)` has none)
+    fn has_ctor(&self) -> bool {
+        !matches!(self, Lin::Std(false, false))
+    }
+    /// `via`: "ctor" = the constructor function, "new" = `LinearScalerParams::new(method)`,
+    /// "setter" = some *other* constructor followed by the `method(..)` setter
+    fn params<F: Float>(&self, via: &str) -> LinearScalerParams<F> {
+        match via {
+            "ctor" => match *self {
+                Lin::Std(true, true) => LinearScaler::standard(),
+                Lin::Std(false, true) => LinearScaler::standard_no_mean(),
+                Lin::Std(true, false) => LinearScaler::standard_no_std(),
+                Lin::Std(false, false) => unreachable!(),
+                Lin::MinMax(lo, hi) if lo == 0.0 && hi == 1.0 => LinearScaler::min_max(),
+                Lin::MinMax(lo, hi) => LinearScaler::min_max_range(F::cast(lo), F::cast(hi)),
+                Lin::MaxAbs => LinearScaler::max_abs(),
+            },
+            "new" => LinearScalerParams::new(self.method()),
+            _ => {
+                let other: LinearScalerParams<F> = if matches!(self, Lin::MaxAbs) { LinearScaler::standard() } else { LinearScaler::max_abs() };
+                other.method(self.method())
+            }
+        }
+    }
+}
+fn gen_via(rng: &mut Rng, lin: Lin) -> &'static str {
+    if !lin.has_ctor() {
+        return *rng.pick(&["new", "setter"]);
+    }
+    *rng.pick(&["ctor", "ctor", "new", "setter"])
 }
 
 fn spread_class(all_equal_or_zero: bool, v: f64, eps: f64) -> &'static str {
@@ -214,7 +314,7 @@ fn spread_class(all_equal_or_zero: bool, v: f64, eps: f64) -> &'static str {
 }
 
 /// the statement's postconditions on the transformed training data (`yf` = transform(fit data))
-fn oracle_lin(ctx: &mut Ctx, tag: &str, lin: Lin, fit: &Mat, p: usize, yf: &Mat, e: f64) {
+fn oracle_lin(ctx: &mut Ctx, tag: &str, lin: Lin, fit: &Mat, p: usize, yf: &Mat, e: f64, t: &Tally) {
     let n = fit.len();
     if n == 0 {
         return;
@@ -247,7 +347,14 @@ fn oracle_lin(ctx: &mut Ctx, tag: &str, lin: Lin, fit: &Mat, p: usize, yf: &Mat,
                 if ws {
                     // conditioning of x - mean, plus (no-mean variant) the rounding of `+ offset`
                     let tol = 64.0 * e * (1.0 + (ma + m.abs()) / sd) + if wm { 0.0 } else { 64.0 * e * m.abs() };
-                    if tol < 0.25 {
+                    if tol >= 0.25 {
+                        // the column's offset/spread ratio leaves no significant digits in the carrier
+                        tally(t, &format!("skipped:{}:unit_var:ill_conditioned", tag));
+                    } else {
+                        tally(t, &format!("judged:{}:unit_var:{}", tag, cls));
+                        if cls == "regular" {
+                            tally(t, &format!("cov:judged:{}:unit_var", tag));
+                        }
                         ctx.require((ysd * ysd - 1.0).abs() <= tol, "standard_unit_var", &class, || format!("column {}: variance of output {:e} (tol {:e}); input {:?}", j, ysd * ysd, tol, c));
                     }
                 } else {
@@ -259,7 +366,12 @@ fn oracle_lin(ctx: &mut Ctx, tag: &str, lin: Lin, fit: &Mat, p: usize, yf: &Mat,
                 let cls = spread_class(alleq, mx - mn, e);
                 let class = format!("{}:column={}", tag, cls);
                 if alleq {
+                    // the statement is silent on constant columns (the model / correspondence pins `lo`)
                     continue;
+                }
+                tally(t, &format!("judged:{}:range:{}", tag, cls));
+                if cls == "regular" {
+                    tally(t, &format!("cov:judged:{}:range", tag));
                 }
                 let tol = 8.0 * e * (lo.abs() + hi.abs() + (hi - lo));
                 ctx.require((ymn - lo).abs() <= tol && (ymx - hi).abs() <= tol, "minmax_range_attained", &class, || {
@@ -272,6 +384,10 @@ fn oracle_lin(ctx: &mut Ctx, tag: &str, lin: Lin, fit: &Mat, p: usize, yf: &Mat,
                 if ma == 0.0 {
                     continue;
                 }
+                tally(t, &format!("judged:{}:maxabs:{}", tag, cls));
+                if cls == "regular" {
+                    tally(t, &format!("cov:judged:{}:maxabs", tag));
+                }
                 ctx.require((yma - 1.0).abs() <= 4.0 * e, "maxabs_one", &class, || format!("column {}: max |output| {:e}; input {:?}", j, yma, c));
             }
         }
@@ -280,6 +396,8 @@ fn oracle_lin(ctx: &mut Ctx, tag: &str, lin: Lin, fit: &Mat, p: usize, yf: &Mat,
 
 /// transform(x[sel]) = transform(x)[sel], and each row alone maps to the same row (bit-exact)
 fn oracle_rowwise<F: Float>(ctx: &mut Ctx, class: &str, x: &Array2<F>, y: &Array2<F>, sel: &[usize], exact: bool, tr: &dyn Fn(Array2<F>) -> Array2<F>) {
+    // not exact (whitening): the matrix kernel may sum in an order that depends on the batch size
+    let rel = if F::epsilon().to_f64().unwrap() > 1e-10 { 1e-3 } else { 1e-9 };
     if x.nrows() == 0 || x.ncols() == 0 {
         return;
     }
@@ -287,7 +405,7 @@ fn oracle_rowwise<F: Float>(ctx: &mut Ctx, class: &str, x: &Array2<F>, y: &Array
         if exact {
             same_bits(a, b)
         } else {
-            a.len() == b.len() && a.iter().zip(b).all(|(u, v)| (u - v).abs() <= 1e-9 * (1.0 + u.abs().max(v.abs())) || (u.is_nan() && v.is_nan()) || u == v)
+            a.len() == b.len() && a.iter().zip(b).all(|(u, v)| (u - v).abs() <= rel * (1.0 + u.abs().max(v.abs())) || (u.is_nan() && v.is_nan()) || u == v)
         }
     };
     let ym = to_mat(y);
@@ -297,7 +415,7 @@ fn oracle_rowwise<F: Float>(ctx: &mut Ctx, class: &str, x: &Array2<F>, y: &Array
         let ok = ys.len() == sel.len() && sel.iter().enumerate().all(|(k, &i)| cmp(&ys[k], &ym[i]));
         ctx.require(ok, "rowwise_selection", class, || format!("transform(x[sel]) differs from transform(x)[sel], sel {:?}", sel));
     }
-    for i in 0..x.nrows().min(4) {
+    for i in 0..x.nrows() {
         let one = x.select(Axis(0), &[i]);
         let yo = to_mat(&tr(one));
         ctx.require(yo.len() == 1 && cmp(&yo[0], &ym[i]), "rowwise_single", class, || format!("row {} transformed alone differs from the row of the batch result", i));
@@ -310,12 +428,61 @@ struct LinOut {
     y: Mat,
 }
 
+/// one request's calling form: constructor / `new` / setter, layouts of the fit and the transform matrix
+#[derive(Clone, Copy)]
+struct Form {
+    via: &'static str,
+    layf: Lay,
+    layx: Lay,
+}
+impl Form {
+    fn toks(&self) -> String {
+        format!("via={} layf={} layx={}", self.via, self.layf.tag(), self.layx.tag())
+    }
+}
+
+fn fit_lin<F: Float>(lin: Lin, form: Form, fit: &Mat, pf: usize) -> Result<LinearScaler<F>, PreprocessingError> {
+    let params = lin.params::<F>(form.via);
+    match form.layf {
+        Lay::S => {
+            // a view: `Fit` is implemented for every `Data` storage
+            let b = backing::<F>(fit, pf);
+            let v = b.slice(s![1..(2 * fit.len() + 1);2, 1..(pf + 1)]);
+            params.fit(&DatasetBase::from(v))
+        }
+        lay => params.fit(&DatasetBase::from(to_arr_lay::<F>(fit, pf, lay))),
+    }
+}
+
+/// the fitted map recomputed cell by cell from the public accessors `offsets()`, `scales()`, `method()`
+/// (statement: "a fixed affine map applied row by row - identical on unseen data"); tolerance = a few
+/// roundings of the magnitudes involved, not bit equality
+fn oracle_affine<F: Float>(ctx: &mut Ctx, class: &str, lin: Lin, sc: &LinearScaler<F>, x: &Mat, y: &Mat, e: f64) {
+    ctx.require(*sc.method() == lin.method::<F>(), "fixed_affine_map", class, || format!("method() reports {} for a scaler fitted as {:?}", sc.method(), lin));
+    let tiny = 4.0 * F::min_positive_value().to_f64().unwrap();
+    let off: Vec<f64> = sc.offsets().iter().map(|v| v.to_f64().unwrap()).collect();
+    let scl: Vec<f64> = sc.scales().iter().map(|v| v.to_f64().unwrap()).collect();
+    for (i, (r, o)) in x.iter().zip(y.iter()).enumerate() {
+        for j in 0..r.len().min(off.len()) {
+            let core = (r[j] - off[j]) * scl[j];
+            let (want, mag) = match sc.method() {
+                ScalingMethod::Standard(false, _) => (core + off[j], core.abs() + off[j].abs()),
+                ScalingMethod::MinMax(lo, hi) => {
+                    let (lo, hi) = (lo.to_f64().unwrap(), hi.to_f64().unwrap());
+                    (core * (hi - lo) + lo, (core * (hi - lo)).abs() + lo.abs())
+                }
+                _ => (core, core.abs()),
+            };
+            let tol = 8.0 * e * mag + tiny;
+            ctx.require((o[j] - want).abs() <= tol, "fixed_affine_map", class, || format!("cell ({}, {}): transform gives {:e}, (x - offset) * scale [...] from the accessors gives {:e} (tol {:e})", i, j, o[j], want, tol));
+        }
+    }
+}
+
 /// fit on `fit`, check the postconditions on transform(fit), transform `x` (last: may panic)
-fn run_lin<F: Float>(ctx: &mut Ctx, tag: &str, lin: Lin, fit: &Mat, pf: usize, x: &Mat, px: usize, sel: &[usize]) -> Result<LinOut, &'static str> {
+fn run_lin<F: Float>(ctx: &mut Ctx, tag: &str, lin: Lin, form: Form, fit: &Mat, pf: usize, x: &Mat, px: usize, sel: &[usize], t: &Tally) -> Result<LinOut, &'static str> {
     let e = F::epsilon().to_f64().unwrap();
-    let fa: Array2<F> = to_arr(fit, pf);
-    let ds = DatasetBase::from(fa.clone());
-    let res = lin.params::<F>().fit(&ds);
+    let res = fit_lin::<F>(lin, form, fit, pf);
     if fit.is_empty() {
         ctx.require(matches!(res, Err(PreprocessingError::NotEnoughSamples)), "empty_rejected", tag, || "fit on a dataset without samples did not return NotEnoughSamples".to_string());
     }
@@ -323,22 +490,39 @@ fn run_lin<F: Float>(ctx: &mut Ctx, tag: &str, lin: Lin, fit: &Mat, pf: usize, x
         Err(e) => return Err(err_name(&e)),
         Ok(sc) => sc,
     };
-    let yf = sc.transform(fa.clone());
-    oracle_lin(ctx, tag, lin, &to_mat(&fa), pf, &to_mat(&yf), e);
+    tally(t, &format!("fitted:{}:via={}:layf={}", tag, form.via, form.layf.tag()));
+    // coarse totals: the keys the coverage floors are put on (the fine ones above are too small to be stable)
+    tally(t, &format!("cov:fit:{}", tag));
+    tally(t, &format!("cov:via={}", form.via));
+    tally(t, &format!("cov:layf={}", form.layf.tag()));
+    let fa: Array2<F> = to_arr_lay(fit, pf, form.layf);
+    let fm = to_mat(&fa);
+    let yf = sc.transform(fa);
+    oracle_lin(ctx, tag, lin, &fm, pf, &to_mat(&yf), e, t);
     let offsets = sc.offsets().iter().map(|v| v.to_f64().unwrap()).collect();
     let scales = sc.scales().iter().map(|v| v.to_f64().unwrap()).collect();
-    let xa: Array2<F> = to_arr(x, px);
+    let xa: Array2<F> = to_arr_lay(x, px, form.layx);
+    let xm = to_mat(&xa);
     let y = sc.transform(xa.clone());
+    tally(t, &format!("transformed:{}:layx={}", tag, form.layx.tag()));
+    tally(t, &format!("cov:layx={}", form.layx.tag()));
+    let ym = to_mat(&y);
+    if px == pf {
+        oracle_affine(ctx, tag, lin, &sc, &xm, &ym, e);
+    }
     oracle_rowwise(ctx, tag, &xa, &y, sel, true, &|a| sc.transform(a));
-    Ok(LinOut { offsets, scales, y: to_mat(&y) })
+    Ok(LinOut { offsets, scales, y: ym })
 }
 
 fn op_lin(em: &mut Em, rng: &mut Rng, lin: Lin, stream: Stream, f32_too: bool) {
     let big = em.thorough();
     let (nf, p) = gen_shape(rng, big);
-    // ndarray sums a single contiguous column with an 8-way unrolled kernel: with n >= 8 its
-    // rounding differs from the sequential model unless the sums are exact (lattice values)
-    let stream = if p == 1 && nf >= 8 && matches!(lin, Lin::Std(..)) { Stream::Lattice } else { stream };
+    let form = Form { via: gen_via(rng, lin), layf: gen_lay(rng), layx: gen_lay(rng) };
+    // ndarray sums a contiguous column (a single column, or any column of a Fortran-order matrix) with an
+    // 8-way unrolled kernel: with n >= 8 its rounding differs from the sequential model unless the sums
+    // are exact (lattice values)
+    let unrolled = nf >= 8 && (p == 1 || form.layf == Lay::F);
+    let stream = if unrolled && matches!(lin, Lin::Std(..)) { Stream::Lattice } else { stream };
     let fit = gen_matrix(rng, nf, p, stream, f64::EPSILON, em);
     let px = if rng.chance(1, 25) { p + 1 } else { p };
     let nx = if rng.chance(1, 12) { 0 } else { rng.range(1, 6) as usize };
@@ -350,12 +534,13 @@ fn op_lin(em: &mut Em, rng: &mut Rng, lin: Lin, stream: Stream, f32_too: bool) {
         Lin::MinMax(lo, hi) => format!("minmax lo={} hi={}", hex64(lo), hex64(hi)),
         Lin::MaxAbs => "maxabs".to_string(),
     };
-    let op = format!("{} pf={} fit={} px={} x={}", head, p, show_mat(&fit), px, show_mat(&x));
+    let op = format!("{} {} pf={} fit={} px={} x={}", head, form.toks(), p, show_mat(&fit), px, show_mat(&x));
     let approx = matches!(lin, Lin::Std(..));
     let tag = lin.name().to_string();
     let flipped = matches!(lin, Lin::MinMax(lo, hi) if lo > hi);
     let promised = nf > 0 && (px == p || x.is_empty() || px == 0) && !flipped;
-    let body = |ctx: &mut Ctx| match run_lin::<f64>(ctx, &tag, lin, &fit, p, &x, px, &sel) {
+    let t: Tally = RefCell::new(vec![]);
+    let body = |ctx: &mut Ctx| match run_lin::<f64>(ctx, &tag, lin, form, &fit, p, &x, px, &sel, &t) {
         Err(name) => format!("err {}", name),
         Ok(o) => format!(
             "ok off={} sc={} y={}",
@@ -369,6 +554,7 @@ fn op_lin(em: &mut Em, rng: &mut Rng, lin: Lin, stream: Stream, f32_too: bool) {
     } else {
         em.case(op, body);
     }
+    flush(em, &t);
     if f32_too {
         // same shapes on f32 (values regenerated for the f32 epsilon), oracle only
         let fit32 = gen_matrix(rng, nf, p, stream, f32::EPSILON as f64, em);
@@ -381,8 +567,8 @@ fn op_lin(em: &mut Em, rng: &mut Rng, lin: Lin, stream: Stream, f32_too: bool) {
         }
         let sel32 = gen_sel(rng, x32.len());
         let tag32 = format!("{}32", lin.name());
-        let op32 = format!("#{}32 {} nf={} p={} fit={}", lin.name(), head, nf, p, show_mat(&fit32));
-        let body32 = |ctx: &mut Ctx| match run_lin::<f32>(ctx, &tag32, lin, &fit32, p, &x32, p, &sel32) {
+        let op32 = format!("#{}32 {} {} nf={} p={} fit={}", lin.name(), head, form.toks(), nf, p, show_mat(&fit32));
+        let body32 = |ctx: &mut Ctx| match run_lin::<f32>(ctx, &tag32, lin, form, &fit32, p, &x32, p, &sel32, &t) {
             Err(name) => format!("err {}", name),
             Ok(_) => "ok".to_string(),
         };
@@ -391,6 +577,7 @@ fn op_lin(em: &mut Em, rng: &mut Rng, lin: Lin, stream: Stream, f32_too: bool) {
         } else {
             em.case(op32, body32);
         }
+        flush(em, &t);
     }
 }
 
@@ -420,56 +607,113 @@ fn norm_scaler(kind: &str) -> NormScaler {
     }
 }
 
-fn run_norm<F: Float>(ctx: &mut Ctx, tag: &str, kind: &str, x: &Mat, p: usize, sel: &[usize]) -> Mat {
+/// class of a row for the norm scaler. The L2 norm squares the entries: rows whose largest entry is
+/// beyond sqrt(MAX)/32 or below 32 sqrt(MIN_POSITIVE) of the carrier lose the squares to overflow /
+/// underflow (open findings); every other non-zero row must come out with unit norm.
+fn row_class<F: Float>(kind: &str, r: &[f64]) -> &'static str {
+    let ma = r.iter().fold(0.0f64, |a, v| a.max(v.abs()));
+    if ma == 0.0 {
+        return "zero";
+    }
+    if kind == "l2" {
+        let hi = F::max_value().to_f64().unwrap().sqrt() / 32.0;
+        let lo = F::min_positive_value().to_f64().unwrap().sqrt() * 32.0;
+        if ma > hi {
+            return "sq_overflow";
+        }
+        if ma < lo {
+            return "sq_underflow";
+        }
+    }
+    "nonzero"
+}
+
+fn run_norm<F: Float>(ctx: &mut Ctx, tag: &str, kind: &str, x: &Mat, p: usize, lay: Lay, sel: &[usize], t: &Tally) -> Mat {
     let e = F::epsilon().to_f64().unwrap();
-    let xa: Array2<F> = to_arr(x, p);
+    let xa: Array2<F> = to_arr_lay(x, p, lay);
     let sc = norm_scaler(kind);
     let y: Array2<F> = sc.transform(xa.clone());
     let xm = to_mat(&xa);
     let ym = to_mat(&y);
     for (i, (r, o)) in xm.iter().zip(ym.iter()).enumerate() {
-        let zero = r.iter().all(|v| *v == 0.0);
-        let class = format!("{}:kind={}:row={}", tag, kind, if zero { "zero" } else { "nonzero" });
+        let rc = row_class::<F>(kind, r);
+        let class = format!("{}:kind={}:row={}", tag, kind, rc);
         ctx.require(o.iter().all(|v| v.is_finite()), "norm_finite", &class, || format!("row {} = {:?} is mapped to {:?}", i, r, o));
-        if !zero {
+        if rc != "zero" {
+            // outputs are at most 1 in magnitude: their norm is safe to compute directly in f64
             let nrm = match kind {
                 "l1" => o.iter().map(|v| v.abs()).sum::<f64>(),
                 "l2" => o.iter().map(|v| v * v).sum::<f64>().sqrt(),
                 _ => o.iter().fold(0.0f64, |a, v| a.max(v.abs())),
             };
             let tol = 4.0 * (p as f64 + 2.0) * e;
+            tally(t, &format!("judged:{}:unit:{}:{}", tag, kind, rc));
+            if rc == "nonzero" {
+                tally(t, &format!("cov:judged:{}:unit:{}", tag, kind));
+            }
             ctx.require((nrm - 1.0).abs() <= tol, "norm_unit", &class, || format!("row {} = {:?}: output norm {:e} (tol {:e})", i, r, nrm, tol));
         }
     }
     oracle_rowwise(ctx, &format!("{}:kind={}", tag, kind), &xa, &y, sel, true, &|a| sc.transform(a));
+    tally(t, &format!("cov:norm:lay={}", lay.tag()));
     ym
+}
+
+/// rows of magnitude 1e+-200 (f32: 1e25 / 1e-30): every entry finite, squares out of range
+fn gen_extreme_rows(rng: &mut Rng, n: usize, p: usize, f32_carrier: bool) -> Mat {
+    (0..n)
+        .map(|_| {
+            let m = if f32_carrier { *rng.pick(&[1e25, 1e-30, 1.0]) } else { *rng.pick(&[1e200, 1e-200, 1e150, 1.0]) };
+            if rng.chance(1, 6) {
+                vec![0.0; p]
+            } else {
+                (0..p).map(|_| rng.range(-32, 32) as f64 / 4.0 * m).collect()
+            }
+        })
+        .collect()
 }
 
 fn op_norm(em: &mut Em, rng: &mut Rng, stream: Stream, f32_too: bool) {
     let kind = *rng.pick(&["l1", "l2", "max"]);
     let (n, p) = gen_shape(rng, em.thorough());
-    let x = gen_matrix(rng, n, p, stream, f64::EPSILON, em);
+    let lay = gen_lay(rng);
+    let extreme = rng.chance(1, 6);
+    let x = if extreme { gen_extreme_rows(rng, n, p, false) } else { gen_matrix(rng, n, p, stream, f64::EPSILON, em) };
     let sel = gen_sel(rng, n);
     em.count(&format!("norm:{}", kind));
-    let op = format!("norm kind={} x={}", kind, show_mat(&x));
+    if extreme {
+        em.count("norm:extreme_magnitude");
+    }
+    let op = format!("norm kind={} lay={} x={}", kind, lay.tag(), show_mat(&x));
+    let t: Tally = RefCell::new(vec![]);
     em.case_valid(op, &format!("norm:kind={}", kind), |ctx| {
-        let y = run_norm::<f64>(ctx, "norm", kind, &x, p, &sel);
+        let y = run_norm::<f64>(ctx, "norm", kind, &x, p, lay, &sel, &t);
         format!("ok y={}", show_mat_c(&y, false))
     });
+    flush(em, &t);
     if f32_too {
-        let x32 = gen_matrix(rng, n, p, stream, f32::EPSILON as f64, em);
+        let x32 = if extreme { gen_extreme_rows(rng, n, p, true) } else { gen_matrix(rng, n, p, stream, f32::EPSILON as f64, em) };
         let sel32 = gen_sel(rng, n);
-        let op32 = format!("#norm32 kind={} x={}", kind, show_mat(&x32));
+        let op32 = format!("#norm32 kind={} lay={} x={}", kind, lay.tag(), show_mat(&x32));
         em.case_valid(op32, &format!("norm32:kind={}", kind), |ctx| {
-            run_norm::<f32>(ctx, "norm32", kind, &x32, p, &sel32);
+            run_norm::<f32>(ctx, "norm32", kind, &x32, p, lay, &sel32, &t);
             "ok".to_string()
         });
+        flush(em, &t);
     }
 }
 
 // ---------------------------------------------------------------- whitening
 
-fn whitener(method: &str) -> Whitener {
+/// `via`: "ctor" = `Whitener::pca()/zca()/cholesky()`, "setter" = another constructor followed by `method(..)`
+fn whitener(method: &str, via: &str) -> Whitener {
+    if via == "setter" {
+        return match method {
+            "pca" => Whitener::zca().method(WhiteningMethod::Pca),
+            "zca" => Whitener::cholesky().method(WhiteningMethod::Zca),
+            _ => Whitener::pca().method(WhiteningMethod::Cholesky),
+        };
+    }
     match method {
         "pca" => Whitener::pca(),
         "zca" => Whitener::zca(),
@@ -526,11 +770,32 @@ fn cov(m: &Mat, p: usize) -> Mat {
     (0..p).map(|a| (0..p).map(|b| m.iter().map(|r| (r[a] - means[a]) * (r[b] - means[b])).sum::<f64>() / (n - 1.0)).collect()).collect()
 }
 
-fn gen_whiten_matrix(rng: &mut Rng, n: usize, p: usize, stream: Stream, em: &mut Em) -> Mat {
-    let (off, sc) = if stream == Stream::Lattice { (0.0, 1.0) } else { (*rng.pick(&[0.0, 10.0, 1e3]), *rng.pick(&[1e-3, 1.0, 1.0, 30.0, 1e3])) };
+/// `small`: restrict scales to what survives rounding to f32
+fn gen_whiten_matrix(rng: &mut Rng, n: usize, p: usize, stream: Stream, small: bool, extreme: Option<f64>, em: &mut Em) -> Mat {
+    let offs: &[f64] = if extreme.is_some() { &[0.0] } else if small { &[0.0, 10.0] } else { &[0.0, 10.0, 1e3] };
+    let one = [extreme.unwrap_or(1.0)];
+    let scs: &[f64] = if extreme.is_some() { &one } else if small { &[1e-2, 1.0, 1.0, 30.0] } else { &[1e-6, 1e-3, 1.0, 1.0, 30.0, 1e3] };
+    // one (offset, scale) for the whole matrix, or (generic stream, half of the cases) one per column:
+    // the statement's "offset and badly scaled columns" inside one matrix
+    let per_column = stream == Stream::Generic && p >= 2 && rng.coin();
+    let common = (*rng.pick(offs), *rng.pick(scs));
+    let cs: Vec<(f64, f64)> = (0..p).map(|_| if per_column { (*rng.pick(offs), *rng.pick(scs)) } else { common }).collect();
+    if per_column {
+        em.count("whiten:per_column_scales");
+    }
     let mut m: Mat = (0..n)
-        .map(|_| (0..p).map(|_| if stream == Stream::Lattice { rng.range(-16, 16) as f64 / 2.0 } else { off + sc * (2.0 * rng.unit() - 1.0) }).collect())
+        .map(|_| (0..p).map(|j| if stream == Stream::Lattice { rng.range(-16, 16) as f64 / 2.0 } else { cs[j].0 + cs[j].1 * (2.0 * rng.unit() - 1.0) }).collect())
         .collect();
+    if stream == Stream::Generic && p >= 2 && rng.chance(1, 3) {
+        // correlated columns: column j gets a share of column j-1 (in units of its own scale)
+        em.count("whiten:correlated_columns");
+        let c = *rng.pick(&[0.5, -0.9, 0.99]);
+        for r in m.iter_mut() {
+            for j in 1..p {
+                r[j] += c * (r[j - 1] - cs[j - 1].0) / cs[j - 1].1 * cs[j].1;
+            }
+        }
+    }
     if n >= 1 && p >= 1 && rng.chance(1, 8) {
         em.count("whiten:constant_column");
         let j = rng.below(p);
@@ -547,19 +812,143 @@ fn gen_whiten_matrix(rng: &mut Rng, n: usize, p: usize, stream: Stream, em: &mut
     m
 }
 
-fn fit_whitener(method: &str, fit: &Mat, p: usize) -> Result<Result<FittedWhitener<f64>, PreprocessingError>, ()> {
-    let fa: Array2<f64> = to_arr(fit, p);
-    let ds = DatasetBase::from(fa);
-    catch_unwind(AssertUnwindSafe(|| whitener(method).fit(&ds))).map_err(|_| ())
+fn fit_whitener<F: Float>(method: &str, form: Form, fit: &Mat, p: usize) -> Result<Result<FittedWhitener<F>, PreprocessingError>, ()> {
+    catch_unwind(AssertUnwindSafe(|| match form.layf {
+        Lay::S => {
+            let b = backing::<F>(fit, p);
+            let v = b.slice(s![1..(2 * fit.len() + 1);2, 1..(p + 1)]);
+            whitener(method, form.via).fit(&DatasetBase::from(v))
+        }
+        lay => whitener(method, form.via).fit(&DatasetBase::from(to_arr_lay::<F>(fit, p, lay))),
+    }))
+    .map_err(|_| ())
 }
 
-fn op_whiten(em: &mut Em, rng: &mut Rng, stream: Stream) {
+/// rank / conditioning class of the training data from its two-pass covariance (in f64)
+fn whiten_conditioning(fit: &Mat, n: usize, p: usize) -> (bool, f64) {
+    if n >= 2 && p >= 1 {
+        let ev = sym_eigvals(&cov(fit, p));
+        let (lo, hi) = (ev.iter().cloned().fold(f64::INFINITY, f64::min), ev.iter().cloned().fold(0.0f64, f64::max));
+        // rank relative to the magnitude of the data: a constant column at 1e3 leaves a rounding residue in
+        // the two-pass covariance that must not count as variance
+        let ma = fit.iter().flatten().fold(0.0f64, |a, v| a.max(v.abs()));
+        let cond = if lo > 0.0 { hi / lo + ma * ma / lo } else { f64::INFINITY };
+        (n > p && lo > 1e-9 * hi && lo > 1e-20 * ma * ma && lo > 0.0, cond)
+    } else {
+        (false, f64::INFINITY)
+    }
+}
+
+/// everything the oracle judges on one fitted whitener; returns (mean, y scaled entry-wise by its
+/// backward-error scale sum_i |x_i - mean_i| |W_ai|)
+fn judge_whitener<F: Float>(ctx: &mut Ctx, class: &str, tag: &str, method: &str, fw: &FittedWhitener<F>, fit: &Mat, x: &Mat, p: usize, form: Form, full_rank: bool, cond: f64, sel: &[usize], t: &Tally) -> (Vec<f64>, Mat) {
+    let e = F::epsilon().to_f64().unwrap();
+    let fa: Array2<F> = to_arr_lay(fit, p, form.layf);
+    if full_rank {
+        let yf = to_mat(&fw.transform(fa));
+        let c = cov(&yf, p);
+        // forward error of the factorisations: SVD of the centred data ~ sqrt(cond), covariance route ~ cond
+        // (cond includes the offset: max|x|^2 / smallest eigenvalue)
+        let tol = 128.0 * e * cond.max(1.0) + 65536.0 * e;
+        let mut worst = 0.0f64;
+        for a in 0..p {
+            for b in 0..p {
+                worst = worst.max((c[a][b] - if a == b { 1.0 } else { 0.0 }).abs());
+            }
+        }
+        if tol < 0.05 {
+            tally(t, &format!("judged:{}:identity_cov:{}", tag, method));
+            tally(t, &(if tag == "whiten" { format!("cov:judged:whiten:identity_cov:{}", method) } else { format!("cov:judged:{}:identity_cov", tag) }));
+            tally(t, &format!("margin:{}:{}:1e{}", tag, method, (worst / tol).max(1e-9).log10().ceil() as i64));
+            ctx.require(worst <= tol, "whiten_identity_cov", class, || format!("covariance of the whitened training data deviates from I by {:e} (tol {:e}, cond {:e})", worst, tol, cond));
+        } else {
+            tally(t, &format!("skipped:{}:identity_cov:ill_conditioned", tag));
+        }
+    }
+    if full_rank && p >= 2 && 128.0 * e * cond < 0.05 {
+        // the requested method is the one that was run (constructor or setter): each method's matrix has its
+        // defining shape - PCA: mutually orthogonal rows (scaled right singular vectors), ZCA: symmetric,
+        // Cholesky: triangular
+        let w = to_mat(&fw.transformation_matrix().to_owned());
+        let rown: Vec<f64> = w.iter().map(|r| r.iter().map(|v| v * v).sum::<f64>().sqrt()).collect();
+        let wmax = w.iter().flatten().fold(0.0f64, |a, v| a.max(v.abs()));
+        let mut dev = 0.0f64;
+        for a in 0..p {
+            for b in 0..p {
+                if a == b {
+                    continue;
+                }
+                let d = match method {
+                    "pca" => (0..p).map(|k| w[a][k] * w[b][k]).sum::<f64>().abs() / (rown[a] * rown[b]),
+                    "zca" => (w[a][b] - w[b][a]).abs() / wmax,
+                    _ => {
+                        if a > b {
+                            w[a][b].abs() / wmax
+                        } else {
+                            0.0
+                        }
+                    }
+                };
+                dev = dev.max(d);
+            }
+        }
+        let tol = 128.0 * e * cond.max(1.0) + 65536.0 * e;
+        tally(t, &format!("judged:{}:method_shape:{}", tag, method));
+        tally(t, &format!("cov:judged:{}:method_shape", tag));
+        tally(t, &format!("shape_margin:{}:{}:1e{}", tag, method, (dev / tol).max(1e-9).log10().ceil() as i64));
+        ctx.require(dev <= tol, "whitening_method_shape", class, || format!("the matrix of method {} deviates from the method's shape (orthogonal rows / symmetric / upper triangular) by {:e} (tol {:e})", method, dev, tol));
+    }
+    let xa: Array2<F> = to_arr_lay(x, p, form.layx);
+    let xm = to_mat(&xa);
+    let y = fw.transform(xa.clone());
+    tally(t, &format!("transformed:{}:{}:layx={}", tag, method, form.layx.tag()));
+    if tag == "whiten" {
+        // (the f32 twin's per-layout counts are below 25: evidence only, no floor)
+        tally(t, &format!("cov:{}:layx={}", tag, form.layx.tag()));
+    }
+    oracle_rowwise(ctx, class, &xa, &y, sel, false, &|a| fw.transform(a));
+    // the fixed affine map from the accessors: y = (x - mean()) . transformation_matrix()^T
+    let mean: Vec<f64> = fw.mean().iter().map(|v| v.to_f64().unwrap()).collect();
+    let w = to_mat(&fw.transformation_matrix().to_owned());
+    let ym = to_mat(&y);
+    let mut yk: Mat = vec![];
+    for (i, r) in xm.iter().enumerate() {
+        let mut row = vec![];
+        for (a, wr) in w.iter().enumerate() {
+            let mut scale = 0.0f64;
+            let mut want = 0.0f64;
+            for j in 0..p {
+                scale += (r[j] - mean[j]).abs() * wr[j].abs();
+                want += (r[j] - mean[j]) * wr[j];
+            }
+            let tol = 8.0 * (p as f64 + 2.0) * e * scale + 4.0 * F::min_positive_value().to_f64().unwrap();
+            ctx.require((ym[i][a] - want).abs() <= tol, "fixed_affine_map", class, || format!("cell ({}, {}): transform gives {:e}, (x - mean) . W^T from the accessors gives {:e} (tol {:e})", i, a, ym[i][a], want, tol));
+            row.push(if scale > 0.0 { ym[i][a] / scale } else { ym[i][a] });
+        }
+        yk.push(row);
+    }
+    (mean, yk)
+}
+
+/// `forced`: (method, magnitude) of the extreme-scale probes
+fn op_whiten(em: &mut Em, rng: &mut Rng, stream: Stream, f32_too: bool, forced: Option<(&'static str, f64)>) {
     let mut method = *rng.pick(&["pca", "zca", "chol"]);
-    let p = rng.range(1, 4) as usize;
-    let n = match rng.below(12) {
+    if let Some((m, _)) = forced {
+        method = m;
+    }
+    let p = if forced.is_some() {
+        rng.range(1, 3) as usize
+    } else if rng.chance(1, 10) {
+        rng.range(4, 6) as usize
+    } else {
+        rng.range(1, 4) as usize
+    };
+    let n = match if forced.is_some() { 2 } else { rng.below(12) } {
         0 => 0,
         1 => rng.range(1, p as i64) as usize, // n <= p: rank deficient
-        _ => p + 1 + rng.below(if em.thorough() { 30 } else { 8 }),
+        // the probes stay below ndarray's 8-way unrolling (generic values, exact means)
+        _ if forced.is_some() => p + 1 + rng.below(4),
+        _ => p + 1 + rng.below(if em.thorough() { 30 } else { 12 }),
     };
     if n == 1 && method != "pca" {
         // outside the property (fewer than two rows) and not runnable: the covariance is 0/0 = NaN and
@@ -567,98 +956,173 @@ fn op_whiten(em: &mut Em, rng: &mut Rng, stream: Stream) {
         em.count("whiten:n1_zca_chol_not_run");
         method = "pca";
     }
-    // single contiguous column with n >= 8: see op_lin
-    let stream = if p == 1 && n >= 8 { Stream::Lattice } else { stream };
-    let fit = gen_whiten_matrix(rng, n, p, stream, em);
+    let form = Form { via: *rng.pick(&["ctor", "ctor", "setter"]), layf: gen_lay(rng), layx: gen_lay(rng) };
+    // contiguous columns with n >= 8: see op_lin
+    let stream = if n >= 8 && (p == 1 || form.layf == Lay::F) { Stream::Lattice } else { stream };
+    // whole matrix of magnitude 1e-10 or 1e9 (finite, full rank): the absolute 1e-8 floors of the PCA / ZCA branches
+    let extreme = forced.map(|(_, v)| v);
+    let fit = gen_whiten_matrix(rng, n, p, stream, false, extreme, em);
     let nx = if rng.chance(1, 10) { 0 } else { rng.range(1, 5) as usize };
-    let x = if rng.chance(1, 4) { fit.clone() } else { gen_whiten_matrix(rng, nx, p, stream, em) };
+    let x = if rng.chance(1, 4) { fit.clone() } else { gen_whiten_matrix(rng, nx, p, stream, false, extreme, em) };
     let sel = gen_sel(rng, x.len());
     em.count(&format!("whiten:{}", method));
-    // conditioning class from the data
-    let (full_rank, cond) = if n >= 2 && p >= 1 {
-        let ev = sym_eigvals(&cov(&fit, p));
-        let (lo, hi) = (ev.iter().cloned().fold(f64::INFINITY, f64::min), ev.iter().cloned().fold(0.0f64, f64::max));
-        // rank relative to the magnitude of the data: a constant column at 1e3 leaves a rounding residue in
-        // the two-pass covariance that must not count as variance
-        let ma = fit.iter().flatten().fold(0.0f64, |a, v| a.max(v.abs()));
-        let cond = if lo > 0.0 { hi / lo + 1e7 * ma / lo.sqrt() * f64::EPSILON } else { f64::INFINITY };
-        (n > p && lo > 1e-9 * hi && lo > 1e-20 * ma * ma && lo > 0.0, cond)
-    } else {
-        (false, f64::INFINITY)
-    };
+    let (full_rank, cond) = whiten_conditioning(&fit, n, p);
     em.count(if full_rank { "whiten:full_rank" } else { "whiten:rank_deficient" });
     // the external factorisation's result goes into the request
-    let pre = fit_whitener(method, &fit, p);
+    let pre = fit_whitener::<f64>(method, form, &fit, p);
     let w: Option<Mat> = match &pre {
         Ok(Ok(fw)) => Some(to_mat(&fw.transformation_matrix().to_owned())),
         _ => None,
     };
     let w_ok = w.as_ref().map_or(false, |w| w.iter().flatten().all(|v| v.is_finite()) && w.iter().all(|r| r.len() == p));
-    let class = format!("whiten:method={}:{}", method, if full_rank { "full_rank" } else { "rank_deficient" });
+    let scale_class = match extreme {
+        Some(v) if v < 1e-9 => ":scale=1e-10",
+        Some(v) if v > 1e8 => ":scale=1e9",
+        _ => "",
+    };
+    if let Some(v) = extreme {
+        em.count(&format!("whiten:probe_magnitude={:e}", v));
+    }
+    let class = format!("whiten:method={}:{}{}", method, if full_rank { "full_rank" } else { "rank_deficient" }, scale_class);
+    let t: Tally = RefCell::new(vec![]);
     if n > 0 && !w_ok {
         // factorisation failed / non-finite / reduced shape: outside the model; only the promise on
         // full-rank data is checked
         em.count("whiten:no_usable_matrix");
-        let op = format!("#whiten_nomatrix method={} pf={} fit={}", method, p, show_mat(&fit));
+        let op = format!("#whiten_nomatrix method={} {} pf={} fit={}", method, form.toks(), p, show_mat(&fit));
         em.case(op, |ctx| {
             ctx.require(!full_rank, "whiten_identity_cov", &class, || format!("no finite p x p whitening matrix on full-rank data (cond {:e})", cond));
             "-".to_string()
         });
-        return;
-    }
-    let wm = w.unwrap_or_default();
-    let op = format!("whiten method={} pf={} fit={} x={} W={}", method, p, show_mat(&fit), show_mat(&x), show_mat(&wm));
-    let body = |ctx: &mut Ctx| {
-        let res = fit_whitener(method, &fit, p).unwrap_or_else(|_| panic!("fit panicked"));
-        if fit.is_empty() {
-            ctx.require(matches!(res, Err(PreprocessingError::NotEnoughSamples)), "empty_rejected", "whiten", || "fit on a dataset without samples did not return NotEnoughSamples".to_string());
-        }
-        let fw = match res {
-            Err(e) => return format!("err {}", err_name(&e)),
-            Ok(fw) => fw,
-        };
-        ctx.require(to_mat(&fw.transformation_matrix().to_owned()).iter().flatten().zip(wm.iter().flatten()).all(|(a, b)| a.to_bits() == b.to_bits()), "deterministic_fit", &class, || "two fits on the same data gave different matrices".to_string());
-        let fa: Array2<f64> = to_arr(&fit, p);
-        if full_rank {
-            let yf = to_mat(&fw.transform(fa.clone()));
-            let c = cov(&yf, p);
-            let tol = 1e-9 * cond.max(1.0);
-            let mut worst = 0.0f64;
-            for a in 0..p {
-                for b in 0..p {
-                    worst = worst.max((c[a][b] - if a == b { 1.0 } else { 0.0 }).abs());
-                }
-            }
-            ctx.require(worst <= tol, "whiten_identity_cov", &class, || format!("covariance of the whitened training data deviates from I by {:e} (tol {:e}, cond {:e})", worst, tol, cond));
-        }
-        let xa: Array2<f64> = to_arr(&x, p);
-        let y = fw.transform(xa.clone());
-        oracle_rowwise(ctx, &class, &xa, &y, &sel, false, &|a| fw.transform(a));
-        // the products differ from the model only by the summation order of the matrix kernel:
-        // backward-error scale kappa = p * max|W| * max|x - mean| (same operations on both sides)
-        let wmax = wm.iter().flatten().fold(0.0f64, |a, v| if a < v.abs() { v.abs() } else { a });
-        let mut cmax = 0.0f64;
-        for r in x.iter() {
-            for (v, m) in r.iter().zip(fw.mean().iter()) {
-                let c = (v - m).abs();
-                if cmax < c {
-                    cmax = c;
-                }
-            }
-        }
-        let kappa = (p as f64) * wmax * cmax;
-        let kappa = if kappa > 0.0 { kappa } else { 1.0 };
-        let yk: Mat = to_mat(&y).iter().map(|r| r.iter().map(|v| v / kappa).collect()).collect();
-        format!("ok mean={} kappa={} y={}", list(fw.mean().iter(), |v| hex64c(*v)), hex64c(kappa), show_mat_c(&yk, true))
-    };
-    if n > 0 {
-        em.case_valid(op, &class, body);
     } else {
-        em.case(op, body);
+        let wm = w.unwrap_or_default();
+        let op = format!("whiten method={} {} pf={} fit={} x={} W={}", method, form.toks(), p, show_mat(&fit), show_mat(&x), show_mat(&wm));
+        let body = |ctx: &mut Ctx| {
+            let res = fit_whitener::<f64>(method, form, &fit, p).unwrap_or_else(|_| panic!("fit panicked"));
+            if fit.is_empty() {
+                ctx.require(matches!(res, Err(PreprocessingError::NotEnoughSamples)), "empty_rejected", "whiten", || "fit on a dataset without samples did not return NotEnoughSamples".to_string());
+            }
+            let fw = match res {
+                Err(e) => return format!("err {}", err_name(&e)),
+                Ok(fw) => fw,
+            };
+            tally(&t, &format!("fitted:whiten:{}:via={}:layf={}", method, form.via, form.layf.tag()));
+            tally(&t, &format!("cov:fit:whiten:{}", method));
+            tally(&t, &format!("cov:whiten:via={}", form.via));
+            tally(&t, &format!("cov:whiten:layf={}", form.layf.tag()));
+            ctx.require(to_mat(&fw.transformation_matrix().to_owned()).iter().flatten().zip(wm.iter().flatten()).all(|(a, b)| a.to_bits() == b.to_bits()), "deterministic_fit", &class, || "two fits on the same data gave different matrices".to_string());
+            let (mean, yk) = judge_whitener::<f64>(ctx, &class, "whiten", method, &fw, &fit, &x, p, form, full_rank, cond, &sel, &t);
+            // the products differ from the model only by the summation order of the matrix kernel: every
+            // entry is divided by its own backward-error scale (same operations on both sides)
+            format!("ok mean={} y={}", list(mean.iter(), |v| hex64c(*v)), show_mat_c(&yk, true))
+        };
+        if n > 0 {
+            em.case_valid(op, &class, body);
+        } else {
+            em.case(op, body);
+        }
+    }
+    flush(em, &t);
+    if f32_too && n >= 2 {
+        // the same generic code instantiated at f32 (oracle only): the 1e-8 floors, the casts of n - 1
+        let r32 = |m: &Mat| -> Mat { m.iter().map(|r| r.iter().map(|v| *v as f32 as f64).collect()).collect() };
+        let fit32 = r32(&gen_whiten_matrix(rng, n, p, stream, true, None, em));
+        let x32 = r32(&gen_whiten_matrix(rng, nx, p, stream, true, None, em));
+        let sel32 = gen_sel(rng, x32.len());
+        let (fr, cond32) = whiten_conditioning(&fit32, n, p);
+        let class32 = format!("whiten32:method={}:{}", method, if fr { "full_rank" } else { "rank_deficient" });
+        let op32 = format!("#whiten32 method={} {} pf={} fit={}", method, form.toks(), p, show_mat(&fit32));
+        em.case(op32, |ctx| {
+            let fw = match fit_whitener::<f32>(method, form, &fit32, p) {
+                Ok(Ok(fw)) => fw,
+                _ => {
+                    // f32 carrier: full rank in f64 statistics but numerically singular in f32 is possible only
+                    // for cond beyond 1/eps32
+                    ctx.require(!fr || cond32 * (f32::EPSILON as f64) * 128.0 >= 0.05, "whiten_identity_cov", &class32, || format!("no whitening matrix on full-rank f32 data (cond {:e})", cond32));
+                    return "-".to_string();
+                }
+            };
+            let usable = fw.transformation_matrix().iter().all(|v| v.is_finite()) && fw.transformation_matrix().dim() == (p, p);
+            if !usable {
+                ctx.require(!fr || cond32 * (f32::EPSILON as f64) * 128.0 >= 0.05, "whiten_identity_cov", &class32, || format!("no finite p x p whitening matrix on full-rank f32 data (cond {:e})", cond32));
+                return "-".to_string();
+            }
+            tally(&t, &format!("fitted:whiten32:{}", method));
+            tally(&t, "cov:fit:whiten32");
+            judge_whitener::<f32>(ctx, &class32, "whiten32", method, &fw, &fit32, &x32, p, form, fr, cond32, &sel32, &t);
+            "-".to_string()
+        });
+        flush(em, &t);
     }
 }
 
 // ---------------------------------------------------------------- dataset forms
+
+/// what the dataset form returned: targets, weights, names, records
+struct DsOut {
+    tg: Vec<Vec<u64>>,
+    w: Vec<u64>,
+    fnm: Vec<String>,
+    tn: Vec<String>,
+    recs: Mat,
+}
+fn ds_out<F: Float>(out: &DatasetBase<Array2<F>, Array2<f64>>) -> DsOut {
+    DsOut {
+        tg: out.targets().rows().into_iter().map(|r| r.iter().map(|v| *v as u64).collect()).collect(),
+        w: out.weights().map(|w| w.iter().map(|v| *v as u64).collect()).unwrap_or_default(),
+        fnm: out.feature_names().to_vec(),
+        tn: out.target_names().to_vec(),
+        recs: to_mat(out.records()),
+    }
+}
+fn ds_out_view<F: Float>(out: &DatasetBase<Array2<F>, ndarray::ArrayView2<f64>>) -> DsOut {
+    DsOut {
+        tg: out.targets().rows().into_iter().map(|r| r.iter().map(|v| *v as u64).collect()).collect(),
+        w: out.weights().map(|w| w.iter().map(|v| *v as u64).collect()).unwrap_or_default(),
+        fnm: out.feature_names().to_vec(),
+        tn: out.target_names().to_vec(),
+        recs: to_mat(out.records()),
+    }
+}
+
+/// dataset form and array form of one fitted transform, on the carrier `F`; `view`: the dataset handed
+/// to `transform` is `DatasetBase<ArrayView2, ArrayView2>` (records copied by `to_owned` inside)
+fn ds_forms<F: Float>(kind: &str, variant: usize, recs: &Mat, p: usize, lay: Lay, ta: &Array2<f64>, w: &[u64], fnm: &[u64], tn: &[u64], view: bool) -> (DsOut, Mat) {
+    let ra: Array2<F> = to_arr_lay(recs, p, lay);
+    let mk = || {
+        let mut d = DatasetBase::new(ra.clone(), ta.clone());
+        if !w.is_empty() {
+            d = d.with_weights(Array1::from_iter(w.iter().map(|v| *v as f32)));
+        }
+        d.with_feature_names(fnm.iter().map(|v| v.to_string()).collect::<Vec<_>>()).with_target_names(tn.iter().map(|v| v.to_string()).collect::<Vec<_>>())
+    };
+    let ds = mk();
+    macro_rules! both {
+        ($tr:expr) => {{
+            let tr = $tr;
+            let arr = to_mat(&tr.transform(ra.clone()));
+            if view {
+                let d = mk();
+                (ds_out_view::<F>(&tr.transform(d.view())), arr)
+            } else {
+                (ds_out::<F>(&tr.transform(mk())), arr)
+            }
+        }};
+    }
+    match kind {
+        "std" | "minmax" | "maxabs" => {
+            let lin = match (kind, variant % 4) {
+                ("std", v) => Lin::Std(v % 2 == 0, v / 2 == 0),
+                ("minmax", 0) => Lin::MinMax(0.0, 1.0),
+                ("minmax", _) => Lin::MinMax(-1.0, 3.0),
+                _ => Lin::MaxAbs,
+            };
+            both!(lin.params::<F>("new").fit(&ds).unwrap())
+        }
+        "norm" => both!(norm_scaler(["l1", "l2", "max"][variant % 3])),
+        _ => both!(whitener(kind, "ctor").fit(&ds).unwrap()),
+    }
+}
 
 fn op_ds(em: &mut Em, rng: &mut Rng) {
     let kind = *rng.pick(&["std", "minmax", "maxabs", "norm", "pca", "zca", "chol"]);
@@ -666,6 +1130,10 @@ fn op_ds(em: &mut Em, rng: &mut Rng) {
     let p = rng.range(1, 4) as usize;
     let n = if whiten { p + 2 + rng.below(6) } else { rng.range(1, 8) as usize };
     let t = rng.range(1, 3) as usize;
+    let variant = rng.below(12);
+    let f32c = rng.chance(1, 3);
+    let view = rng.chance(1, 3);
+    let lay = gen_lay(rng);
     let recs: Mat = (0..n).map(|_| (0..p).map(|_| rng.range(-16, 16) as f64 / 2.0).collect()).collect();
     let with_w = rng.coin();
     let with_fn = rng.chance(2, 3);
@@ -675,9 +1143,14 @@ fn op_ds(em: &mut Em, rng: &mut Rng) {
     let fnm: Vec<u64> = if with_fn { (0..p).map(|j| (100 + j) as u64).collect() } else { vec![] };
     let tn: Vec<u64> = if with_tn { (0..t).map(|c| (200 + c) as u64).collect() } else { vec![] };
     em.count(&format!("ds:{}", kind));
+    em.count(&format!("ds:carrier={}:view={}", if f32c { "f32" } else { "f64" }, view as u8));
     let op = format!(
-        "ds kind={} pout={} t={} tg={} w={} fn={} tn={} fpanic=0",
+        "ds kind={} var={} carrier={} view={} lay={} pout={} t={} tg={} w={} fn={} tn={} fpanic=0",
         kind,
+        variant,
+        if f32c { "f32" } else { "f64" },
+        view as u8,
+        lay.tag(),
         p,
         t,
         list2(tg.iter().map(|r| r.iter()), |v| v.to_string()),
@@ -686,46 +1159,25 @@ fn op_ds(em: &mut Em, rng: &mut Rng) {
         list(tn.iter(), |v| v.to_string())
     );
     let class = format!("ds:kind={}", kind);
+    let t_: Tally = RefCell::new(vec![]);
     em.case_valid(op, &class, |ctx| {
-        let ra: Array2<f64> = to_arr(&recs, p);
         let ta = Array2::from_shape_fn((n, t), |(i, c)| tg[i][c] as f64);
-        let mk = || {
-            let mut d = DatasetBase::new(ra.clone(), ta.clone());
-            if with_w {
-                d = d.with_weights(Array1::from_iter(w.iter().map(|v| *v as f32)));
-            }
-            d.with_feature_names(fnm.iter().map(|v| v.to_string()).collect::<Vec<_>>()).with_target_names(tn.iter().map(|v| v.to_string()).collect::<Vec<_>>())
-        };
-        let ds = mk();
-        // dataset form and array form of the same fitted transform
-        let (out, arr) = match kind {
-            "std" | "minmax" | "maxabs" => {
-                let lin = match kind {
-                    "std" => Lin::Std(true, true),
-                    "minmax" => Lin::MinMax(-1.0, 3.0),
-                    _ => Lin::MaxAbs,
-                };
-                let sc = lin.params::<f64>().fit(&ds).unwrap();
-                (sc.transform(mk()), sc.transform(ra.clone()))
-            }
-            "norm" => (NormScaler::l2().transform(mk()), NormScaler::l2().transform(ra.clone())),
-            _ => {
-                let fw = whitener(kind).fit(&ds).unwrap();
-                (fw.transform(mk()), fw.transform(ra.clone()))
-            }
-        };
-        let otg: Vec<Vec<u64>> = out.targets().rows().into_iter().map(|r| r.iter().map(|v| *v as u64).collect()).collect();
-        let ow: Vec<u64> = out.weights().map(|w| w.iter().map(|v| *v as u64).collect()).unwrap_or_default();
-        let ofn: Vec<String> = out.feature_names().to_vec();
-        let otn: Vec<String> = out.target_names().to_vec();
-        ctx.require(otg == tg, "metadata_passthrough", &class, || format!("targets changed: {:?}", otg));
-        ctx.require(ow == w, "metadata_passthrough", &class, || format!("weights changed: {:?} -> {:?}", w, ow));
-        ctx.require(ofn == fnm.iter().map(|v| v.to_string()).collect::<Vec<_>>(), "metadata_passthrough", &class, || format!("feature names changed: {:?}", ofn));
-        ctx.require(otn == tn.iter().map(|v| v.to_string()).collect::<Vec<_>>(), "metadata_passthrough", &class, || format!("target names changed: {:?}", otn));
-        let same = to_mat(out.records()).iter().zip(to_mat(&arr).iter()).all(|(a, b)| same_bits(a, b)) && out.records().dim() == arr.dim();
+        let (out, arr) = if f32c { ds_forms::<f32>(kind, variant, &recs, p, lay, &ta, &w, &fnm, &tn, view) } else { ds_forms::<f64>(kind, variant, &recs, p, lay, &ta, &w, &fnm, &tn, view) };
+        tally(&t_, &format!("ds_ok:{}", kind));
+        tally(&t_, "cov:ds_ok");
+        ctx.require(out.tg == tg, "metadata_passthrough", &class, || format!("targets changed: {:?}", out.tg));
+        ctx.require(out.w == w, "metadata_passthrough", &class, || format!("weights changed: {:?} -> {:?}", w, out.w));
+        ctx.require(out.fnm == fnm.iter().map(|v| v.to_string()).collect::<Vec<_>>(), "metadata_passthrough", &class, || format!("feature names changed: {:?}", out.fnm));
+        ctx.require(out.tn == tn.iter().map(|v| v.to_string()).collect::<Vec<_>>(), "metadata_passthrough", &class, || format!("target names changed: {:?}", out.tn));
+        // same fitted transform, same records: the statement's "fixed map" (whitening: up to the matrix kernel's
+        // summation order, which may depend on the memory layout `to_owned` produces)
+        let tol = if whiten { if f32c { 1e-3 } else { 1e-9 } } else { 0.0 };
+        let same = out.recs.len() == arr.len()
+            && out.recs.iter().zip(arr.iter()).all(|(a, b)| a.len() == b.len() && a.iter().zip(b).all(|(u, v)| u.to_bits() == v.to_bits() || (u - v).abs() <= tol * (1.0 + u.abs().max(v.abs()))));
         ctx.require(same, "dataset_equals_array_form", &class, || "records of the transformed dataset differ from the array transform".to_string());
-        format!("ok tg={} w={} fn={} tn={}", list2(otg.iter().map(|r| r.iter()), |v| v.to_string()), list(ow.iter(), |v| v.to_string()), ofn.join(","), otn.join(","))
+        format!("ok tg={} w={} fn={} tn={}", list2(out.tg.iter().map(|r| r.iter()), |v| v.to_string()), list(out.w.iter(), |v| v.to_string()), out.fnm.join(","), out.tn.join(","))
     });
+    flush(em, &t_);
 }
 
 // ---------------------------------------------------------------- fixed witnesses
@@ -735,8 +1187,8 @@ fn witnesses(em: &mut Em) {
     let x: Mat = vec![vec![0.0, 0.0], vec![3.0, 4.0]];
     for kind in ["l1", "l2", "max"] {
         let xx = x.clone();
-        em.case_valid(format!("norm kind={} x={}", kind, show_mat(&xx)), &format!("norm:kind={}", kind), |ctx| {
-            let y = run_norm::<f64>(ctx, "norm", kind, &xx, 2, &[1, 0, 0]);
+        em.case_valid(format!("norm kind={} lay=C x={}", kind, show_mat(&xx)), &format!("norm:kind={}", kind), |ctx| {
+            let y = run_norm::<f64>(ctx, "norm", kind, &xx, 2, Lay::C, &[1, 0, 0], &RefCell::new(vec![]));
             format!("ok y={}", show_mat_c(&y, false))
         });
     }
@@ -750,7 +1202,8 @@ fn witnesses(em: &mut Em) {
         };
         let approx = matches!(lin, Lin::Std(..));
         let t2 = tiny.clone();
-        em.case_valid(format!("{} pf=1 fit={} px=1 x={}", head, show_mat(&t2), show_mat(&t2)), lin.name(), |ctx| match run_lin::<f64>(ctx, lin.name(), lin, &t2, 1, &t2, 1, &[2, 0]) {
+        let form = Form { via: "ctor", layf: Lay::C, layx: Lay::C };
+        em.case_valid(format!("{} {} pf=1 fit={} px=1 x={}", head, form.toks(), show_mat(&t2), show_mat(&t2)), lin.name(), |ctx| match run_lin::<f64>(ctx, lin.name(), lin, form, &t2, 1, &t2, 1, &[2, 0], &RefCell::new(vec![])) {
             Err(name) => format!("err {}", name),
             Ok(o) => format!(
                 "ok off={} sc={} y={}",
@@ -776,7 +1229,15 @@ pub fn run(em: &mut Em, rng: &mut Rng) {
         op_norm(em, rng, stream, f32_too);
     }
     for i in 0..(300 * scale) {
-        op_whiten(em, rng, if i % 2 == 0 { Stream::Lattice } else { Stream::Generic });
+        op_whiten(em, rng, if i % 2 == 0 { Stream::Lattice } else { Stream::Generic }, i % 3 == 0, None);
+    }
+    for _ in 0..(4 * scale) {
+        for method in ["pca", "zca", "chol"] {
+            // 1e-10 / 1e9: beyond the absolute floors (open findings); 1e-6 .. 1e6: well inside, must whiten
+            for mag in [1e-10, 1e9, 1e-6, 1e-5, 1e6] {
+                op_whiten(em, rng, Stream::Generic, false, Some((method, mag)));
+            }
+        }
     }
     for _ in 0..(150 * scale) {
         op_ds(em, rng);
